@@ -121,6 +121,9 @@ type hRun struct {
 	maxActive int
 	lat       time.Duration
 
+	opStart int64 // real clock at the start of the running operation
+	stalled bool  // some operation took more than 2 s of real time
+
 	classes    map[string]bool
 	nontrivial bool
 	fail       string
@@ -133,6 +136,12 @@ func (r *hRun) ikey(idx int) string { return fmt.Sprintf("i%d:%d", r.c.Salt, idx
 func (r *hRun) failf(format string, a ...any) {
 	if r.fail == "" {
 		r.fail = fmt.Sprintf(format, a...)
+	}
+}
+
+func (r *hRun) stall() {
+	if cache.C06RealNow()-r.opStart > 2e9 {
+		r.stalled = true
 	}
 }
 
@@ -620,6 +629,7 @@ func (r *hRun) doSetCache(what string, o hOp) {
 		}
 		fmt.Sscanf(k[1:], "%d", &n)
 		var err error
+		r.budget(func(int) int { return 1 })
 		switch k[0] {
 		case 'p':
 			row, ok := r.db[n%c06NIDs]
@@ -840,7 +850,7 @@ func c06HistInterp(t *testing.T, c hCase) (v kit.Verdict) {
 	}
 	r.srvs = cache.C06Srvs[:n]
 	for _, s := range cache.C06Srvs {
-		s.Reset()
+		s.Reset(fmt.Sprintf("p%d:", c.Salt), fmt.Sprintf("i%d:", c.Salt))
 	}
 	res := kit.Bubble(t, func() {
 		restore := cache.C06LocalWheel()
@@ -869,6 +879,7 @@ func c06HistInterp(t *testing.T, c hCase) (v kit.Verdict) {
 		}
 		for i, o := range c.Ops {
 			what := fmt.Sprintf("op %d %s", i, opString(o))
+			r.opStart = cache.C06RealNow()
 			if o.K != "adv" && o.K != "fault" {
 				// an operation issues at most 2 failing commands per node
 				r.budget(func(int) int { return 2 })
@@ -904,6 +915,7 @@ func c06HistInterp(t *testing.T, c hCase) (v kit.Verdict) {
 					}
 				}
 			}
+			r.stall()
 			if r.fail != "" {
 				return
 			}
@@ -923,7 +935,9 @@ func c06HistInterp(t *testing.T, c hCase) (v kit.Verdict) {
 			if next < 0 {
 				break
 			}
+			r.opStart = cache.C06RealNow()
 			r.doAdv("epilogue (all nodes up)", next-r.nowTick())
+			r.stall()
 			if r.fail != "" {
 				return
 			}
@@ -932,10 +946,14 @@ func c06HistInterp(t *testing.T, c hCase) (v kit.Verdict) {
 			r.failf("epilogue: key %s still awaits a retried delete although every node is up and every retry instant has passed", k)
 		}
 		for id := 0; id < c06NIDs && r.fail == ""; id++ {
+			r.opStart = cache.C06RealNow()
 			r.doRead(fmt.Sprintf("epilogue read %d", id), id)
+			r.stall()
 		}
 		for idx := 0; idx < c06NIdx && r.fail == ""; idx++ {
+			r.opStart = cache.C06RealNow()
 			r.doReadIndex(fmt.Sprintf("epilogue readidx %d", idx), idx)
+			r.stall()
 		}
 		// "and not again afterwards": one whole delay table later no further DEL was sent
 		if len(r.tasksF) > 0 && r.fail == "" {
@@ -943,9 +961,16 @@ func c06HistInterp(t *testing.T, c hCase) (v kit.Verdict) {
 			for _, d := range cache.C06Delays {
 				quiet += d
 			}
+			r.opStart = cache.C06RealNow()
 			r.doAdv("epilogue (quiet period after the last successful retry)", quiet+2)
+			r.stall()
 		}
 	})
+	if r.stalled {
+		// a real-time socket time-out of the redis client may have fired: the
+		// environment, not the code, decided this case
+		return kit.Verdict{Excluded: true, Classes: []string{"excluded-real-time-stall"}}
+	}
 	v.NonTrivial = r.nontrivial
 	for k := range r.classes {
 		v.Classes = append(v.Classes, k)
